@@ -1075,12 +1075,14 @@ def setTarget (t : GoType) (v : GoVal) (c : Ctx) : Except Err Ctx :=
     | .ok ru => run (initStateRU ru (some { root := .target }))
 
 /-- SetTarget(nil) / Reset: reinitialise the stacks, `valueBuffer.reset()`; the key cache
-and its contents survive -/
+and its contents survive.  The `reflect.New` cells of the abandoned document are garbage:
+the only pointers to them lived on the stacks just cleared (stored values hold their pointees
+inline), so the model drops them. -/
 def reset (c : Ctx) : Ctx :=
   { c with
     unfolder := Stk.init .noTarget, value := Stk.init none, ptr := Stk.init none,
     key := Stk.init [], idx := Stk.init 0, baseType := Stk.init 0,
-    valueBuffer := {} }
+    valueBuffer := {}, cells := #[] }
 
 /-- NewUnfolder(nil) -/
 def newUnfolder : Ctx := {}
